@@ -324,3 +324,7 @@ mod test {
         }
     }
 }
+
+#[cfg(kani)]
+#[path = "/verif/kani/optimisation.rs"]
+mod verif_kani;
